@@ -441,3 +441,277 @@ Qed.
 
 Theorem wfb_iff s : wfb s = true <-> wf s.
 Proof. split; [apply wfb_wf|apply wf_wfb]. Qed.
+
+(* ---- small facts about nodes ---------------------------------------------------------------------- *)
+Lemma nparents_ext a b : parent a = parent b -> nparents a = nparents b.
+Proof. unfold nparents. intros ->. reflexivity. Qed.
+
+Lemma nvirt_ext a b : parent a = parent b -> children a = children b -> nvirt a = nvirt b.
+Proof. unfold nvirt, nparents. intros -> ->. reflexivity. Qed.
+
+Lemma neighbour_index_ext a b x : parent a = parent b -> children a = children b -> neighbour_index a x = neighbour_index b x.
+Proof. unfold neighbour_index. intros -> ->. reflexivity. Qed.
+
+Lemma laxes_length n t : length (laxes n t) = nlegs n.
+Proof. unfold laxes, nlegs. apply permute_length. Qed.
+
+Lemma own_of_ext a ta b tb :
+  parent a = parent b -> children a = children b -> laxes a ta = laxes b tb -> own_of a ta = own_of b tb.
+Proof. intros Hp Hc Hl. unfold own_of. rewrite Hl, (nparents_ext a b Hp), (nvirt_ext a b Hp Hc). reflexivity. Qed.
+
+Lemma open_of_ext a ta b tb :
+  parent a = parent b -> children a = children b -> laxes a ta = laxes b tb -> open_of a ta = open_of b tb.
+Proof. intros Hp Hc Hl. unfold open_of. rewrite Hl, (nvirt_ext a b Hp Hc). reflexivity. Qed.
+
+Lemma tens_aget s k t : aget k (tensors s) = Some t -> tens s k = t.
+Proof. unfold tens. intros ->. reflexivity. Qed.
+
+Lemma wf_node_wf s k n : wf s -> aget k (nodes s) = Some n -> node_wf n.
+Proof. intros H E. destruct (wf_node s H k n E). split; assumption. Qed.
+
+Lemma wf_tens s k n : wf s -> aget k (nodes s) = Some n -> aget k (tensors s) = Some (tens s k).
+Proof.
+  intros H E. pose proof (ni_t _ _ _ (wf_node s H k n E)) as Ht. apply amem_aget in Ht.
+  destruct Ht as [t Ht]. rewrite (tens_aget _ _ _ Ht). exact Ht.
+Qed.
+
+Lemma wf_axes_length s k n : wf s -> aget k (nodes s) = Some n -> length (axes (tens s k)) = nlegs n.
+Proof.
+  intros H E. pose proof (wf_node s H k n E) as Hn. pose proof (ni_shape _ _ _ Hn) as Hs.
+  pose proof (ni_perm _ _ _ Hn) as Hp. apply Permutation_length in Hp. rewrite seq_length in Hp.
+  unfold nlegs. rewrite Hp, Hs, map_length. reflexivity.
+Qed.
+
+(* a child's parent is not its child (no 2-cycles, no self loops) *)
+Lemma wf_parent_not_child s c cn p pn :
+  wf s -> aget c (nodes s) = Some cn -> parent cn = Some p -> aget p (nodes s) = Some pn -> parent pn <> Some c.
+Proof.
+  intros H Ec Ep Epn Hq. destruct (wf_acyc s H) as [d Hd].
+  pose proof (Hd c cn p Ec Ep). pose proof (Hd p pn c Epn Hq). lia.
+Qed.
+
+Lemma wf_not_self_parent s c cn : wf s -> aget c (nodes s) = Some cn -> parent cn <> Some c.
+Proof.
+  intros H Ec Hq. destruct (wf_acyc s H) as [d Hd]. pose proof (Hd c cn c Ec Hq). lia.
+Qed.
+
+(* key sets agree *)
+Lemma wf_keys_iff s k : wf s -> (In k (akeys (nodes s)) <-> In k (akeys (tensors s))).
+Proof.
+  intros H. split; intros Hk.
+  - apply keys_aget in Hk. destruct Hk as [n E]. apply amem_true. apply (ni_t _ _ _ (wf_node s H k n E)).
+  - apply amem_true. apply (wf_tn s H). apply amem_true. exact Hk.
+Qed.
+
+Theorem wf_keys_perm s : wf s -> Permutation (akeys (tensors s)) (akeys (nodes s)).
+Proof.
+  intros H. apply NoDup_Permutation; [apply (wf_tnd s H)|apply (wf_nd s H)|].
+  intros k. symmetry. apply wf_keys_iff. exact H.
+Qed.
+
+(* ---- replacing one node record and its raw tensor without changing the logical view ---------------- *)
+Lemma permute_map {A B} (f : A -> B) d d' p (l : list A) :
+  (forall i, In i p -> i < length l) -> permute d' p (map f l) = map f (permute d p l).
+Proof.
+  intros H. unfold permute. rewrite map_map. apply map_ext_in. intros i Hi.
+  rewrite (nth_indep _ d' (f d)) by (rewrite map_length; apply H; exact Hi). apply map_nth.
+Qed.
+
+Lemma perm_bound p n : Permutation p (seq 0 n) -> forall i, In i p -> i < n.
+Proof. intros H i Hi. apply (Permutation_in _ H) in Hi. apply in_seq in Hi. lia. Qed.
+
+Theorem wf_update_node s n nd t nd' t' :
+  wf s -> aget n (nodes s) = Some nd -> aget n (tensors s) = Some t ->
+  parent nd' = parent nd -> children nd' = children nd ->
+  laxes nd' t' = laxes nd t ->
+  Permutation (perm nd') (seq 0 (length (shape nd'))) ->
+  shape nd' = map (wdim s) (axes t') ->
+  incl (axes t') (axes t) ->
+  wf (upd_tensors (upd_nodes s (aset n nd')) (aset n t')).
+Proof.
+  intros H En Et Hp Hc Hl Hperm Hshape Hincl.
+  set (s' := upd_tensors (upd_nodes s (aset n nd')) (aset n t')).
+  assert (F1 : forall k, aget k (nodes s') = if Nat.eqb k n then Some nd' else aget k (nodes s)).
+  { intros k. cbn. apply aget_aset. }
+  assert (F2 : forall k, tens s' k = if Nat.eqb k n then t' else tens s k).
+  { intros k. unfold tens. cbn. rewrite aget_aset. destruct (Nat.eqb k n); reflexivity. }
+  assert (Ht : tens s n = t) by (apply tens_aget; exact Et).
+  assert (F3 : forall k nk', aget k (nodes s') = Some nk' ->
+            exists nk, aget k (nodes s) = Some nk /\ parent nk' = parent nk /\ children nk' = children nk
+                       /\ nlegs nk' = nlegs nk /\ lax s' k nk' = lax s k nk).
+  { intros k nk' E. rewrite F1 in E. unfold lax. rewrite F2. destruct (Nat.eqb_spec k n) as [->|Hne].
+    - injection E as <-. exists nd. rewrite Ht. repeat split; auto.
+      rewrite <- (laxes_length nd' t'), <- (laxes_length nd t), Hl. reflexivity.
+    - exists nk'. repeat split; auto. }
+  assert (F4 : forall k nk, aget k (nodes s) = Some nk ->
+            exists nk', aget k (nodes s') = Some nk' /\ parent nk' = parent nk /\ children nk' = children nk
+                        /\ lax s' k nk' = lax s k nk).
+  { intros k nk E. rewrite F1. unfold lax. rewrite F2. destruct (Nat.eqb_spec k n) as [->|Hne].
+    - exists nd'. rewrite E in En. injection En as ->. rewrite Ht. repeat split; auto.
+    - exists nk. repeat split; auto. }
+  assert (Fown : forall k nk', aget k (nodes s') = Some nk' ->
+            exists nk, aget k (nodes s) = Some nk /\ own_of nk' (tens s' k) = own_of nk (tens s k)).
+  { intros k nk' E. destruct (F3 k nk' E) as (nk & E1 & E2 & E3 & _ & E5). exists nk. split; [exact E1|].
+    apply own_of_ext; assumption. }
+  constructor.
+  - cbn. apply NoDup_akeys_aset. apply (wf_nd s H).
+  - cbn. apply NoDup_akeys_aset. apply (wf_tnd s H).
+  - intros k Hk. cbn in *. apply amem_aget in Hk. destruct Hk as [v Hv]. rewrite aget_aset in Hv.
+    apply amem_aget. rewrite aget_aset. destruct (Nat.eqb k n); [eauto|].
+    apply amem_aget. apply (wf_tn s H). apply amem_aget. eauto.
+  - destruct (wf_root s H) as (r & rn & Hr & Er & Hpr & Huniq).
+    destruct (F4 r rn Er) as (rn' & E1 & E2 & _). exists r, rn'. repeat split; auto; [congruence|].
+    intros k nk' E Hpar. destruct (F3 k nk' E) as (nk & E3 & E4 & _). apply (Huniq k nk E3). congruence.
+  - intros k nk' E. destruct (F3 k nk' E) as (nk & E1 & E2 & E3 & E4 & E5).
+    pose proof (wf_node s H k nk E1) as Hn. constructor.
+    + cbn. apply amem_aget. rewrite aget_aset. destruct (Nat.eqb k n); [eauto|].
+      apply amem_aget. apply (ni_t _ _ _ Hn).
+    + rewrite F1 in E. destruct (Nat.eqb_spec k n) as [->|Hne].
+      * injection E as <-. exact Hperm.
+      * rewrite E in E1. injection E1 as <-. apply (ni_perm _ _ _ Hn).
+    + rewrite F2. rewrite F1 in E. destruct (Nat.eqb_spec k n) as [->|Hne].
+      * injection E as <-. exact Hshape.
+      * rewrite E in E1. injection E1 as <-. apply (ni_shape _ _ _ Hn).
+    + rewrite (nvirt_ext _ _ E2 E3), E4. apply (ni_virt _ _ _ Hn).
+    + rewrite E3. apply (ni_chnd _ _ _ Hn).
+    + intros c Hc'. rewrite E3 in Hc'. destruct (ni_ch _ _ _ Hn c Hc') as (cn & Ec & Epc).
+      destruct (F4 c cn Ec) as (cn' & Ec' & Epc' & _). exists cn'. split; [exact Ec'|congruence].
+    + intros p Hpar. rewrite E2 in Hpar. destruct (ni_par _ _ _ Hn p Hpar) as (pn & i & Epn & Hin & Hni & Hw).
+      destruct (F4 p pn Epn) as (pn' & Epn' & Epp & Epc & Epl). exists pn', i. repeat split.
+      * exact Epn'.
+      * rewrite Epc. exact Hin.
+      * rewrite (neighbour_index_ext _ _ k Epp Epc). exact Hni.
+      * rewrite E5, Epl. exact Hw.
+  - intros k nk' E. destruct (Fown k nk' E) as (nk & E1 & ->). apply (wf_own1 s H k nk E1).
+  - intros k1 n1 k2 n2 w E1 E2. destruct (Fown k1 n1 E1) as (m1 & G1 & ->). destruct (Fown k2 n2 E2) as (m2 & G2 & ->).
+    apply (wf_own2 s H k1 m1 k2 m2 w G1 G2).
+  - intros k tk w E Hw. cbn in E. rewrite aget_aset in E. change (next_wire s') with (next_wire s).
+    destruct (Nat.eqb k n).
+    + injection E as <-. apply (wf_wires s H n t w Et). apply Hincl. exact Hw.
+    + apply (wf_wires s H k tk w E Hw).
+  - apply (wf_dims s H).
+  - destruct (wf_acyc s H) as [d Hd]. exists d. intros c cn' p E Hpar.
+    destruct (F3 c cn' E) as (cn & E1 & E2 & _). apply (Hd c cn p E1). congruence.
+Qed.
+
+(* ---- flat_map over updated association lists ------------------------------------------------------- *)
+Lemma flat_map_ext_in {A B} (f g : A -> list B) l : (forall x, In x l -> f x = g x) -> flat_map f l = flat_map g l.
+Proof.
+  induction l as [|x t IH]; cbn; [reflexivity|]. intros H. rewrite (H x (or_introl eq_refl)). f_equal.
+  apply IH. intros y Hy. apply H. right. exact Hy.
+Qed.
+
+Lemma flat_map_aset_perm {V W} (f f' : nat * V -> list W) k v v0 l :
+  NoDup (akeys l) -> aget k l = Some v0 -> Permutation (f' (k, v)) (f (k, v0)) ->
+  (forall k2 v2, k2 <> k -> f' (k2, v2) = f (k2, v2)) ->
+  Permutation (flat_map f' (aset k v l)) (flat_map f l).
+Proof.
+  intros Hnd E Hk Hother. induction l as [|[k' v'] t IH]; cbn in *; [discriminate|].
+  inversion Hnd as [|? ? Hni Hnd']; subst.
+  destruct (Nat.eqb_spec k k') as [->|Hne]; cbn.
+  - injection E as ->. apply Permutation_app; [exact Hk|].
+    rewrite (flat_map_ext_in f' f); [reflexivity|]. intros [k2 v2] Hin. apply Hother. intros ->.
+    apply Hni. unfold akeys. change k' with (fst (k', v2)). apply in_map. exact Hin.
+  - rewrite (Hother k' v') by congruence. apply Permutation_app_head. apply IH; assumption.
+Qed.
+
+Lemma flat_map_aset_eq {V W} (f f' : nat * V -> list W) k v v0 l :
+  NoDup (akeys l) -> aget k l = Some v0 -> f' (k, v) = f (k, v0) ->
+  (forall k2 v2, k2 <> k -> f' (k2, v2) = f (k2, v2)) ->
+  flat_map f' (aset k v l) = flat_map f l.
+Proof.
+  intros Hnd E Hk Hother. induction l as [|[k' v'] t IH]; cbn in *; [discriminate|].
+  inversion Hnd as [|? ? Hni Hnd']; subst.
+  destruct (Nat.eqb_spec k k') as [->|Hne]; cbn.
+  - injection E as ->. rewrite Hk. f_equal.
+    apply flat_map_ext_in. intros [k2 v2] Hin. apply Hother. intros ->.
+    apply Hni. unfold akeys. change k' with (fst (k', v2)). apply in_map. exact Hin.
+  - rewrite (Hother k' v') by congruence. f_equal. apply IH; assumption.
+Qed.
+
+(* ---- plain access ---------------------------------------------------------------------------------- *)
+Lemma permute_permute_seq {A} (d : A) p (l : list A) : permute d (seq 0 (length p)) (permute d p l) = permute d p l.
+Proof. rewrite <- (permute_length d p l) at 1. apply permute_seq. Qed.
+
+Lemma permute_incl {A} (d : A) p (l : list A) : (forall i, In i p -> i < length l) -> incl (permute d p l) l.
+Proof.
+  intros H x Hx. unfold permute in Hx. apply in_map_iff in Hx. destruct Hx as (i & <- & Hi).
+  apply nth_In. apply H. exact Hi.
+Qed.
+
+Lemma access_inv s n s' nd' t' :
+  access s n = Some (s', nd', t') ->
+  exists nd t, aget n (nodes s) = Some nd /\ aget n (tensors s) = Some t /\
+               nd' = reset_permutation nd /\ t' = s_transpose (perm nd) t /\
+               s' = upd_tensors (upd_nodes s (aset n nd')) (aset n t').
+Proof.
+  unfold access. destruct (aget n (nodes s)) as [nd|]; [|discriminate].
+  destruct (aget n (tensors s)) as [t|]; [|discriminate]. intros [= <- <- <-]. exists nd, t. auto.
+Qed.
+
+Lemma access_laxes nd t : laxes (reset_permutation nd) (s_transpose (perm nd) t) = laxes nd t.
+Proof. unfold laxes. cbn. apply permute_permute_seq. Qed.
+
+Theorem access_preserves_wf s n s' nd' t' : wf s -> access s n = Some (s', nd', t') -> wf s'.
+Proof.
+  intros H Ha. destruct (access_inv _ _ _ _ _ Ha) as (nd & t & En & Et & -> & -> & ->).
+  pose proof (wf_node s H n nd En) as Hn.
+  assert (Hlen : length (shape nd) = length (axes t)).
+  { rewrite (ni_shape _ _ _ Hn), (tens_aget _ _ _ Et), map_length. reflexivity. }
+  assert (Hb : forall i, In i (perm nd) -> i < length (axes t)).
+  { rewrite <- Hlen. apply perm_bound. apply (ni_perm _ _ _ Hn). }
+  apply (wf_update_node s n nd t); auto.
+  - apply access_laxes.
+  - cbn. unfold node_shape. rewrite permute_length. reflexivity.
+  - cbn. unfold node_shape. rewrite (ni_shape _ _ _ Hn), (tens_aget _ _ _ Et).
+    apply permute_map. exact Hb.
+  - cbn. apply permute_incl. exact Hb.
+Qed.
+
+Theorem access_preserves_wfb s n s' nd t : wfb s = true -> access s n = Some (s', nd, t) -> wfb s' = true.
+Proof. intros H Ha. apply wf_wfb. eapply access_preserves_wf; [apply wfb_wf; exact H|exact Ha]. Qed.
+
+(* totals: atoms exactly, wire ends up to the order of the accessed tensor's axes, open wires exactly *)
+Theorem access_total_atoms s n s' nd t : wf s -> access s n = Some (s', nd, t) -> total_atoms s' = total_atoms s.
+Proof.
+  intros H Ha. destruct (access_inv _ _ _ _ _ Ha) as (nd0 & t0 & En & Et & -> & -> & ->).
+  unfold total_atoms. cbn. apply (flat_map_aset_eq _ _ n _ t0); auto. apply (wf_tnd s H).
+Qed.
+
+Theorem access_total_ends s n s' nd t : wf s -> access s n = Some (s', nd, t) -> Permutation (total_ends s') (total_ends s).
+Proof.
+  intros H Ha. destruct (access_inv _ _ _ _ _ Ha) as (nd0 & t0 & En & Et & -> & -> & ->).
+  pose proof (wf_node s H n nd0 En) as Hn.
+  unfold total_ends. cbn. apply (flat_map_aset_perm _ _ n _ t0); auto; [apply (wf_tnd s H)|].
+  cbn. unfold sarr_ends. cbn. apply Permutation_app_tail. apply permute_is_perm.
+  replace (length (axes t0)) with (length (shape nd0)); [apply (ni_perm _ _ _ Hn)|].
+  rewrite (ni_shape _ _ _ Hn), (tens_aget _ _ _ Et), map_length. reflexivity.
+Qed.
+
+Theorem access_open_wires s n s' nd t : wf s -> access s n = Some (s', nd, t) -> open_wires s' = open_wires s.
+Proof.
+  intros H Ha. destruct (access_inv _ _ _ _ _ Ha) as (nd0 & t0 & En & Et & -> & -> & ->).
+  unfold open_wires. cbn [nodes upd_tensors upd_nodes].
+  apply (flat_map_aset_eq _ _ n _ nd0); auto; [apply (wf_nd s H)| |].
+  - unfold node_open, tens. cbn. rewrite aget_aset_same, Et. apply open_of_ext; auto. apply access_laxes.
+  - intros k2 v2 Hne. unfold node_open, tens. cbn. rewrite aget_aset_other by exact Hne. reflexivity.
+Qed.
+
+(* the same for the logical view of every node *)
+Theorem access_lax s n s' nd t k nk : wf s -> access s n = Some (s', nd, t) -> aget k (nodes s) = Some nk ->
+  exists nk', aget k (nodes s') = Some nk' /\ parent nk' = parent nk /\ children nk' = children nk /\ lax s' k nk' = lax s k nk.
+Proof.
+  intros H Ha E. destruct (access_inv _ _ _ _ _ Ha) as (nd0 & t0 & En & Et & -> & -> & ->).
+  cbn. rewrite aget_aset. unfold lax, tens. cbn. rewrite aget_aset. destruct (Nat.eqb_spec k n) as [->|Hne].
+  - rewrite E in En. injection En as <-. eexists. split; [reflexivity|]. rewrite Et. repeat split. apply access_laxes.
+  - exists nk. auto.
+Qed.
+
+(* non-vacuity: the checker accepts every state of the example run of Props/C02.v *)
+Example wfb_C02_example :
+  run_wfb empty_store [AddRoot 0 [2; 3; 2]; AddChild 1 [2; 2] 1 0 0; AddChild 2 [3; 2] 0 0 1;
+                       Contract 1 0 1;
+                       Split 1 {| ls_parent := None; ls_children := [2]; ls_open := [1]; ls_root := true |}
+                               {| ls_parent := None; ls_children := []; ls_open := [2]; ls_root := false |} 1 7 0 Reduced 0]
+  = [true; true; true; true; true].
+Proof. vm_compute. reflexivity. Qed.
